@@ -129,7 +129,7 @@ def main(argv: list[str]) -> int:
 
     # ---- verdicts
     subs = _subs(mod)
-    out_dir = os.path.join(VERIF, "out", prop)
+    out_dir = os.path.join(os.environ.get("VERIF_OUT_DIR") or os.path.join(VERIF, "out"), prop)
     violations: list[tuple[str, str, str]] = []
     known_hits: list[tuple[dict, int]] = []
     shrink_budget = 20.0 if tier == "quick" else 90.0
@@ -183,8 +183,9 @@ def main(argv: list[str]) -> int:
         "wall_s": round(wall, 2),
         "violations": len(violations),
     }
-    os.makedirs(os.path.join(VERIF, "evidence"), exist_ok=True)
-    with open(os.path.join(VERIF, "evidence", f"{prop}.json"), "w") as fh:
+    ev_dir = os.environ.get("VERIF_EVIDENCE_DIR") or os.path.join(VERIF, "evidence")
+    os.makedirs(ev_dir, exist_ok=True)
+    with open(os.path.join(ev_dir, f"{prop}.json"), "w") as fh:
         json.dump(evidence, fh, indent=1, sort_keys=False, default=repr)
         fh.write("\n")
 
